@@ -215,7 +215,7 @@ World::World(const WorldCfg &c) : cfg(c) {
     iface.write = cb_write;
     iface.control = cfg.with_control ? cb_control : nullptr;
     iface.flush = cfg.with_flush ? cb_flush : nullptr;
-    iface.reset = cb_reset;
+    iface.reset = cfg.with_reset ? cb_reset : nullptr;
     ctx->user_context = nullptr;
 }
 
